@@ -425,7 +425,7 @@ def report(prop, spec, tier, runs, findings, kf, t0, extra, status_extra):
     solver_us = 0
     fn_under_contract = set()
     clause_count = 0
-    trusted, assumed_dep, not_verified, desugar, dropped = [], [], [], [], []
+    trusted, assumed_dep, not_verified, desugar, dropped = [], ['every unit: std ASCII classification predicates of char / u8 as documented (contracts/std_specs.rs, 11 assume_specification items)'], [], [], []
     assumed_parser = []
     assumption_counts = {}
     samples = []
